@@ -163,6 +163,9 @@ func (m *SubscribeMessage) Decode(src []byte) (int, error) {
 		return total, err
 	}
 
+	// The packet ends where its remaining length says, not where src ends.
+	src = src[:total+int(m.remlen)]
+
 	if len(src[total:]) < 2 {
 		return total, fmt.Errorf("subscribe/Decode: Insufficient buffer size. Expecting %d, got %d", 2, len(src[total:]))
 	}
